@@ -7,7 +7,7 @@ seeds="$@"; [ -z "$seeds" ] && seeds=$(ls seeded | grep -E '^C[0-9]+-[0-9]+$')
 for s in $seeds; do
   pid=${s%%-*}
   related=$(grep "^$s " seeded/RELATED 2>/dev/null | cut -d' ' -f2-)
-  git -C /repo apply "seeded/$s/patch.diff" || { echo "$s: patch does not apply"; continue; }
+  git -C /repo apply "/verif/seeded/$s/patch.diff" || { echo "$s: patch does not apply"; continue; }
   for c in $pid $related; do
     out=$(./check $c 2>&1); rc=$?
     sigs=$(echo "$out" | grep VIOLATION | sed 's/.*replay=[^ ]*\/C[0-9]*-//; s/-[0-9]*\.json//' | sort -u | head -4 | tr '\n' ';')
